@@ -736,14 +736,14 @@ pub fn run_one(seed: u64, cfg: &SimCfg) -> RunResult {
         t.clear();
         for node in sim.nodes.iter() {
             let rec = node.rec.lock().unwrap();
-            t.push((rec.ops.clone(), rec.imp.clone(), rec.handler.clone()));
+            t.push((rec.ops.clone(), rec.imp.clone(), rec.handler.clone(), rec.link.clone()));
         }
     });
     res
 }
 
 thread_local! {
-    pub static NODE_TRACES: std::cell::RefCell<Vec<(Vec<String>, Vec<String>, Vec<String>)>> = const { std::cell::RefCell::new(Vec::new()) };
+    pub static NODE_TRACES: std::cell::RefCell<Vec<(Vec<String>, Vec<String>, Vec<String>, Vec<String>)>> = const { std::cell::RefCell::new(Vec::new()) };
 }
 
 /// The `sim` stream: `runs` simulated networks; per-node behaviour traces become node-stream
@@ -753,6 +753,7 @@ pub fn sim_stream(seed: u64, runs: usize, cfg: SimCfg, out: &str, name: &str, ru
     let mut sink = Sink::default();
     let mut net = vec![];
     let mut hlog: Vec<String> = vec![];
+    let mut llog: Vec<String> = vec![];
     for r in 0..runs {
         let run_seed = run_seed_override.unwrap_or(seed.wrapping_mul(1_000_003).wrapping_add(r as u64));
         NODE_TRACES.with(|t| t.borrow_mut().clear());
@@ -769,7 +770,10 @@ pub fn sim_stream(seed: u64, runs: usize, cfg: SimCfg, out: &str, name: &str, ru
         }
         let first_line = sink.ops.len();
         NODE_TRACES.with(|t| {
-            for (node, (ops, imp, handler)) in t.borrow().iter().enumerate() {
+            for (node, (ops, imp, handler, link)) in t.borrow().iter().enumerate() {
+                for l in link {
+                    llog.push(format!("r={r} n={node} {l}"));
+                }
                 for (o, i) in ops.iter().zip(imp.iter()) {
                     sink.push(o.clone(), i.clone(), "-".into());
                 }
@@ -794,6 +798,7 @@ pub fn sim_stream(seed: u64, runs: usize, cfg: SimCfg, out: &str, name: &str, ru
     std::fs::create_dir_all(out).ok();
     std::fs::write(format!("{out}/{name}.net.json"), format!("[{}]", net.join(",\n"))).expect("write net file");
     std::fs::write(format!("{out}/{name}.handler"), hlog.join("\n") + "\n").expect("write handler log");
+    std::fs::write(format!("{out}/{name}.link"), llog.join("\n") + "\n").expect("write link log");
     sink.add("sim.handler-records", hlog.len() as u64);
     sink
 }
